@@ -163,6 +163,17 @@ def checker_validation(prop):
             out["refactorings"] = len([x for x in r2 if x["status"] != "skipped"])
             out["refactorings_silent"] = len([x for x in r2 if x["status"] == "MISSED"])
             out["refactorings_alarmed"] = [x["name"] for x in r2 if x["status"] == "caught"]
+        # catch rate under refactoring: each seeded change of this property on top of every
+        # refactoring of the same files (where the two patches compose and compile)
+        js3 = os.path.join(td, "x.json")
+        subprocess.run([sys.executable, os.path.join(VERIF, "tools", "cross.py"), "--jobs", "12", "--seeds", os.path.join(VERIF, "seeded", prop + "-*", "patch.diff"), "--json", js3], env=env, capture_output=True, text=True)
+        try:
+            r3 = json.load(open(js3))
+            out["breaking_on_refactored_trees"] = r3["combinations"] - r3["skipped"]
+            out["breaking_on_refactored_trees_reported"] = r3["caught"]
+            out["breaking_on_refactored_trees_missed"] = r3["missed"]
+        except Exception:
+            pass
     return out
 
 
